@@ -109,4 +109,4 @@ clean:
 
 # ---- setup: everything a fresh restore needs ---------------------------------
 .PHONY: setup
-setup: cont
+setup: cont $(B)/small/bin/eion
